@@ -190,10 +190,15 @@ def run(ctx):
             lo = -np.inf
         elif r < 0.4:
             hi = np.inf
-        nm, fn = rng.choice([("max", np.max), ("min", np.min), ("first", lambda v: v[0])])
+        # ... and statistics that are UNDEFINED (NaN) on some segments -- the sample standard deviation of a one-sample segment, the logarithm of a negative mean: a NaN is
+        # neither below the lower nor above the upper bound, so such a segment is not flagged
+        nm, fn = rng.choice([("max", np.max), ("min", np.min), ("first", lambda v: v[0]), ("sample-std", lambda v: np.std(v, ddof=1)), ("log-mean", lambda v: np.log(np.mean(v)))])
         X = pd.DataFrame(x, columns=["v"])
         try:
-            out = StatThresholdAnomaliser(StubCD(cp), fn, lo, hi).fit(X).predict(X)
+            import warnings as _w
+            with _w.catch_warnings(), np.errstate(all="ignore"):
+                _w.simplefilter("ignore")
+                out = StatThresholdAnomaliser(StubCD(cp), fn, lo, hi).fit(X).predict(X)
         except Exception as ex:
             ctx.violation(f"StatThresholdAnomaliser(stat={nm}, bounds ({lo}, {hi})) raised {type(ex).__name__}: {str(ex)[:100]}",
                           {"x": x.tolist(), "changepoints": cp, "stat": nm, "stat_lower": float(lo), "stat_upper": float(hi)}, {"what": "exception", "stat": nm})
@@ -201,8 +206,12 @@ def run(ctx):
         impl = [(int(l), int(r_)) for l, r_ in zip(out["ilocs"].array.left, out["ilocs"].array.right)]
         bounds = [0] + cp + [n]
         segs = list(zip(bounds[:-1], bounds[1:]))
-        svals = [float(fn(x[s_:e_])) for s_, e_ in segs]
+        with _w.catch_warnings(), np.errstate(all="ignore"):
+            _w.simplefilter("ignore")
+            svals = [float(fn(x[s_:e_])) for s_, e_ in segs]
         want = [se for se, v in zip(segs, svals) if v < lo or v > hi]
+        if any(v != v for v in svals):
+            ctx.count("statistic", "NaN on some segment")
         ctx.case({"nondyadic": nm, "x": x.tolist(), "cp": cp, "lo": float(lo), "hi": float(hi)}, nontrivial=len(want) > 0)
         ctx.count("bound_kind", "one-sided" if np.isinf(lo) or np.isinf(hi) else ("tie-on-bound" if any(v in (lo, hi) for v in svals) else "two-sided"))
         if impl != want:
